@@ -87,7 +87,8 @@ RULE = ("direct: 1-3 stations (registration order not sorted), start queue empty
         "a new one (run: possibly another max_recompute) or (step/direct) none at all, and bare update_scheduler "
         "(same / new object), 1-2 of them at a time — before use (also ChargingNetwork.from_json(net.to_json()) "
         "before the Simulator is built), in the MIDDLE of run() (the scripted scheduler hands control back at 1-3 "
-        "chosen periods, the harness acts and calls run() again), BETWEEN LEGS (the queue has run dry, actions, new "
+        "chosen periods, the harness acts and calls run() again; also after a rejected schedule before run() is "
+        "called again), BETWEEN LEGS (the queue has run dry, actions, new "
         "sessions / recompute events at later periods, run() again; 1-2 further legs), between step() calls and "
         "between direct submissions; combined with everything above (multi-period tails, empty / shorter follow-up "
         "schedules, rejected schedules and resumes).  Station ids are registered in random (mostly NON-sorted) "
@@ -734,7 +735,9 @@ def _run_run(case):
                     c["after_same"] = _mat(sim.pilot_signals) == c["before"]
                     retries += 1
                     if case.get("resume") and retries < 6:
-                        continue          # catch the error and call run() again
+                        # catch the error [save / restore / swap the scheduler] and call run() again
+                        _do_actions(ctx, case.get("on_reject") or [], marks, {"at": "reject"})
+                        continue
                 err = name
                 break
             if not legs:
@@ -1348,6 +1351,8 @@ def _gen_run(rng):
         for t in range(horizon + 2):
             script[f"{t}r1"] = _gen_sched(rng, stations, nonneg=True, p_bad=0.25, p_empty=0.2, vmax=vmax)
             script[f"{t}r2"] = _gen_sched(rng, stations, nonneg=True, p_bad=0.0, p_empty=0.2, vmax=vmax)
+        if resume and rng.random() < 0.35:
+            hist["on_reject"] = _gen_actions(rng)      # ... and saves / restores before trying again
     limit = rng.choice([None, None, None, 30, 5])
     return dict({"mode": "run", "stations": stations, "limit": limit, "maxrate": maxrate, "sessions": sessions,
                  "recompute": recompute, "max_recompute": max_recompute, "script": script, "resume": resume}, **hist)
@@ -1561,7 +1566,7 @@ def shrink(case, kind):
                 return any(f["kind"] == kind for f in oracle(cand, run_impl(cand)))
             except Exception:
                 return False
-        for fld in ("start", "net_json"):
+        for fld in ("start", "net_json", "on_reject"):
             if cur.get(fld) and still({k: v for k, v in cur.items() if k != fld}):
                 cur = {k: v for k, v in cur.items() if k != fld}
         for t in sorted(cur.get("breaks") or {}):
